@@ -17,7 +17,7 @@ SEL = "may::io::sys::select::Selector"
 C = "may::cancel::CancelImpl"
 ES = "may::coroutine_impl::EventSource"
 RESUME = Call(r"may::scheduler::Scheduler::(schedule|schedule_with_id|schedule_global)|may::coroutine_impl::run_coroutine", transitive=False)
-TIMER_ACCESS = Call(r"(std|core)::cell::RefCell::borrow_mut", on=ED + ".timer", transitive=False)
+TIMER_ACCESS = Call(r"(std|core)::cell::RefCell::borrow_mut", on=ED + ".timer", transitive=True)
 
 def check(ctx):
     an = ctx.an
@@ -46,12 +46,20 @@ def check(ctx):
                    "blocked on that socket then (too early)" % f.id, f.where(sorted(take)[0]))
             continue
         # the timer is taken before the coroutine is resumed
-        r = an.reach(f, [Point(0, 0)], blocked=tm)
+        tbbs = set(t0.bb for t0 in take)
+        some_edges = ctx.edges(f, lambda a: a.kind == "variant" and a.name == "Some" and simplify(a.origin)[0] == "call" and simplify(a.origin)[1] in tbbs)
+        starts = [Point(tb, 0) for _, tb, _ in some_edges] or [q for s0 in take for q in an.after(f, s0)]
+        r = an.reach(f, starts, blocked=tm | take)
         bad = [x for x in res if x in r]
         ctx.ob("R-SIB", f.id, "taker/disarms-timer", not bad, "%s takes the armed timer before it resumes the coroutine" % f.id if not bad else
                "%s can resume the coroutine without having taken the armed io timer" % f.id, f.where(sorted(tm)[0]))
         if base == "may::io::sys::timeout_handler":
-            continue   # the timer that fired is the handle being taken
+            # the timer that fired is the handle being taken; only the one that took the coroutine may touch the timer cell
+            r5 = an.reach(f, [Point(0, 0)], blocked=take)
+            bad5 = [x for x in an.sites(f, Call(r"(std|core)::cell::RefCell::borrow_mut", on=ED + ".timer", transitive=False), "must") if x in r5]
+            ctx.ob("R-SIB", f.id, "handler/co-before-timer-cell", not bad5, "timeout_handler takes the coroutine before it touches the timer cell (another taker may be using the cell)" if not bad5 else
+                   "timeout_handler touches EventData.timer before it owns the coroutine: it races with a taker on another thread (RefCell already borrowed)", f.where())
+            continue
         # the taken handle is disarmed by nulling its event_data (remove() alone is a no-op on the newest entry)
         null = Call(r"may_queue::mpsc_list_v1::Entry::with_mut_data", transitive=True)
         ok = bool(an.sites(f, null, "may"))
@@ -118,7 +126,7 @@ def check(ctx):
         short = adt.rsplit("::", 1)[-1]
         shared.slot_waiter(ctx, f.id, reg, Call(re.escape(C) + "::is_canceled", transitive=False), call_true(re.escape(C) + "::is_canceled"),
                            Call(re.escape(C) + "::cancel", transitive=False), "io-cancel-registration:" + short, "%s::subscribe" % short, "is_canceled() is true")
-        ctx.order(f.id, Call(AO + "store", on=ED + ".co", transitive=False), reg, "io-publish-before-register:" + short,
+        ctx.order(f.id, Call(AO + "store", on=ED + ".co", transitive=True), reg, "io-publish-before-register:" + short,
                   "%s::subscribe publishes the coroutine before it registers the io with the cancel data (cancel consumes the registration first and then looks for the coroutine)" % short, rule="R-SIB")
     if n < 9 and any(k.startswith("<may::io::sys::cancel::CancelIoImpl as ") for k in ctx.prog.fns):
         ctx.missing("R-SIB", ES, "io-cancel-registration", "expected ≥9 cancellable io sources, found %d" % n)
@@ -128,3 +136,68 @@ def check(ctx):
                   "io cancel takes its registration, then the blocked coroutine")
         ctx.guarded(fid, Agg(r"(std|core)::option::Option", "Some", transitive=False), variant_of_call(AO + "take", "Some"), "io-cancel/some-only-if-resumed",
                     "io cancel reports success only when it really took and resumed the coroutine (otherwise the park path is tried)", pred_label="edge `co.take()` is Some")
+
+    # ---- arm/publish: a subscriber that arms an io timer publishes through store_co (deadline re-check)
+    arm = Call(re.escape(SEL) + "::add_io_timer", transitive=False)
+    n_arm = 0
+    for im in ctx.prog.impls_of(ES):
+        adt = norm(im.get("self_adt") or im["self_ty"])
+        if "::io::sys::" not in adt: continue
+        sub = [norm(m["id"]) for m in im["methods"] if m["n"] == "subscribe"]
+        f = ctx.prog.fn(sub[0]) if sub else None
+        if f is None or not an.sites(f, arm, "must"): continue
+        n_arm += 1
+        short = adt.rsplit("::", 1)[-1]
+        raw = an.sites(f, Call(AO + "store", on=ED + ".co", transitive=False), "must")
+        via = an.sites(f, Call(re.escape(ED) + "::store_co", transitive=False), "must")
+        ctx.ob("R-ORDER", f.id, "arm-publish/uses-store-co:" + short, bool(via) and not raw,
+               "%s::subscribe arms a timer and publishes the coroutine through EventData::store_co (which re-checks the deadline)" % short if via and not raw else
+               "%s::subscribe arms an io timer but publishes the coroutine with a raw co.store: if the timer fires before the store (subscriber stalled ≥ timeout) the handler "
+               "finds the slot empty and the timeout is lost for good" % short, f.where(sorted(raw or via or [None])[0] if (raw or via) else None))
+        r9 = an.reach(f, [q for s0 in via for q in an.after(f, s0)])
+        late = [x for x in an.sites(f, arm, "must") if x in r9]
+        ctx.ob("R-ORDER", f.id, "arm-publish/arm-then-publish:" + short, not late, "the timer is armed (and its deadline recorded) before the coroutine is published" if not late else
+               "%s::subscribe arms the timer after publishing the coroutine: the already resumed coroutine may be touching the timer cell" % short, f.where((late or [None])[0]) if late else f.where())
+    if n_arm < 10:
+        ctx.missing("R-ORDER", ES, "arm-publish", "expected ≥10 io subscribers that arm a timer, found %d" % n_arm)
+    SC = ED + "::store_co"
+    f = ctx.fn("R-ORDER", SC, "arm-publish/store-co")
+    if f is not None:
+        ctx.must_follow(SC, Call(AO + "store", on=ED + ".co", transitive=False), Call(A("(swap|load)"), on=ED + ".deadline", transitive=False), "arm-publish/recheck-after-publish",
+                        "after publishing, store_co looks at the deadline recorded when the timer was armed")
+        ge = lambda a: a.kind == "cmp" and ((a.op == "Ge" and is_call_result(r"may::timeout_list::now")(a.a)) or (a.op == "Le" and is_call_result(r"may::timeout_list::now")(a.b)))
+        ctx.guarded(SC, Call(r"may::yield_now::set_co_para", transitive=False), ge, "arm-publish/timedout-only-after-deadline", "store_co delivers TimedOut only when the deadline has passed",
+                    rule="R-EXIT", pred_label="edge `now() >= deadline`")
+        ctx.guarded(SC, Call(r"may::yield_now::set_co_para", transitive=False), variant_of_call(AO + "take", "Some"), "arm-publish/timedout-only-if-retaken",
+                    "…and only into a coroutine it took back out of the slot", rule="R-EXIT", pred_label="edge `co.take()` is Some")
+    AT2 = SEL + "::add_io_timer"
+    ctx.order(AT2, Call(A("store"), on=ED + ".deadline", transitive=False), Call(r"may::timeout_list::TimeOutList::add_timer", transitive=False), "arm-publish/deadline-before-arm",
+              "the deadline is recorded before the timer is armed (deadline ≤ the timer's expiry, so a fired timer implies a passed deadline)")
+    # ---- F11: timer entries are unlinked / dropped only on the selector thread that owns the list
+    RT = "may::io::sys::remove_timer"
+    ctx.who_may_call(r"may_queue::mpsc_list_v1::Entry::remove", {"may::timeout_list::TimerThread::run", RT, SEL + "::select"}, "entry-remove-callers",
+                     "Entry::remove (consumer-only: non-atomic refs, neighbour links) is called only by the timer thread for its own list, by the selector loop for its own list, and by remove_timer", min_callers=2)
+    ctx.who_may_call(re.escape(RT), {SEL + "::select", ED + "::del_timer"}, "remove-timer-callers", "remove_timer runs only in the selector loop or in del_timer behind the owner-thread test", min_callers=2)
+    DT = ED + "::del_timer"
+    def owner_edge(a):
+        if a.kind != "cmp" or a.op != "Eq": return False
+        def is_wid(o):
+            o = simplify(o)
+            return o[0] == "call" and o[2] == "std::thread::LocalKey::get"
+        return is_wid(a.a) or is_wid(a.b)
+    ctx.guarded(DT, Call(re.escape(RT), transitive=False), owner_edge, "del-timer/remove-only-on-owner-thread",
+                "del_timer unlinks the entry itself only when it runs on the selector thread that owns the list (WORKER_ID == fd % workers)", pred_label="edge `WORKER_ID.get() == id`")
+    ctx.must_follow(DT, None, [Call(re.escape(RT), transitive=False), Call(re.escape(SEL) + "::del_io_timer", transitive=False)], "del-timer/handle-never-dropped-on-foreign-thread",
+                    "a taken timer handle is either removed on the owner thread or handed to it (never dropped on a foreign thread)",
+                    edge=variant_of_call(r"(std|core)::option::Option::take", "Some"), edge_label="edge `timer.take()` is Some")
+    f = ctx.fn("R-WHO", DT, "del-timer/owner-is-fd-mod-workers")
+    if f is not None:
+        ok = False
+        for pt in f.points():
+            n = f.node(pt)
+            if not f.is_term(pt) and n["s"] == "=" and n["rv"]["r"] == "bin" and n["rv"]["op"] == "Rem":
+                a = simplify(trace_operand(f, n["rv"]["a"])); b = simplify(trace_operand(f, n["rv"]["b"]))
+                ok = (ED + ".fd") in all_fields(a) and "may::scheduler::Scheduler.workers" in all_fields(b)
+        ctx.ob("R-WHO", DT, "del-timer/owner-is-fd-mod-workers", ok, "the owning selector is fd % workers, as in add_io_timer" if ok else "del_timer computes the owning selector differently from add_io_timer (fd % workers)", f.where())
+    ctx.order(SEL + "::select", Call(re.escape(RT), transitive=False), Call(r"may::scheduler::Scheduler::schedule_with_id|may::coroutine_impl::run_coroutine", transitive=False),
+              "select/remove-then-schedule-handed-over", "a handed-over coroutine is scheduled only after its timer was removed", need_b=True) if False else None
